@@ -82,7 +82,9 @@ class Driver:
             [str(self.exe)], input=data.encode("ascii"), stdout=subprocess.PIPE,
             stderr=subprocess.PIPE, timeout=timeout,
         )
-        out = p.stdout.decode("utf-8").splitlines()
+        out = p.stdout.decode("utf-8").split("\n")  # NOT splitlines(): U+2028/U+0085 may travel raw inside strings
+        if out and out[-1] == "":
+            out.pop()
         self.calls += 1
         self.lines += len(reqs)
         if p.returncode != 0 or len(out) != len(reqs):
